@@ -118,6 +118,7 @@ def probe_leg(ck, n):
 def run(ck):
   quick = ck.quick
   ck.mc("TFTerms_MC", "TFTerms_MC", required_actions=["Step"])
+  ck.mc("TFRefine_MC", "TFRefine_MC", required_actions=["Next"])   # chain machine vs control skeleton, lockstep
   beh = ck.gen("TFTerms_Gen", "TFTerms_Gen", simulate=(108 if quick else 1200), depth=6)
   ck.sample({"spec_behaviour": {"cfg": beh[0]["cfg"], "step1": beh[0]["steps"][0]}})
   jobs = make_jobs(ck, beh)
